@@ -1,5 +1,5 @@
 """C16 — serialization shape stays well-formed across any history of additions."""
-import itertools, json
+import copy, itertools, json
 
 ID = "C16"
 RULE = ("misc.entity_hist: all histories of length <=4 (quick) / <=5 (thorough) over a set of entry objects (with "
@@ -387,6 +387,40 @@ def run_real(ctx):
                                     "_why": "recipient %d (%s) of %d after a late addition" % (j, w2, len(allk))}))
     C04.cmp(ctx, dec, C04.p_dec)
     ctx.count("real:jwe-decryptions", len(dec))
+
+    # ---- direct key agreement / direct encryption fix the content key: first recipient only ----
+    # (w, key, must succeed?)  A direct recipient added to an object whose content key is already fixed must be refused:
+    # it would either replace the content key of the earlier recipients or be unable to decrypt
+    dirk = {"kty": "oct", "k": G.b64u(rng.randbytes(16)), "alg": "A128GCM"}
+    seqs = [[("ECDH-ES", pool["EC-P256"], True), ("A128KW", pool["oct-16"], True), ("A256GCMKW", pool["oct-32"], True)],
+            [("A128KW", pool["oct-16"], True), ("ECDH-ES", pool["EC-P256"], False), ("A192KW", pool["oct-24"], True)],
+            [("ECDH-ES+A128KW", pool["EC-P384"], True), ("ECDH-ES", pool["EC-P384"], False)],
+            [("ECDH-ES", pool["EC-P521"], True), ("ECDH-ES", pool["EC-P256"], False), ("RSA-OAEP", pool["RSA-2048"], True)],
+            [("dir", dirk, True), ("A128KW", pool["oct-16"], True), ("ECDH-ES+A256KW", pool["EC-P521"], True)],
+            [("ECDH-ES", pool["EC-K256"], True), ("PBES2-HS256+A128KW", "pw", True)],
+            [("A128KW", pool["oct-16"], True), ("dir", dirk, False)],
+            [("dir", dirk, True), ("dir", dict(dirk, k=G.b64u(rng.randbytes(16))), False), ("dir", dirk, True)]]
+    for start in ({"protected": {"enc": "A128GCM"}}, {"protected": {"enc": "A128GCM"}, "recipients": []}):
+        for seq in seqs:
+            jwe, cek, added = copy.deepcopy(start), {}, []
+            for w, k, must in seq:
+                a = {"jwe": jwe, "rcp": {"header": {"alg": w, "kid": kid(len(added))}}, "jwk": k, "cek": cek, "rand": rng.randbytes(200).hex(), "_wrap": w}
+                r = C04.cmp(ctx, [("jwe.enc_jwk", a)], lambda *x: None)[0][0]
+                if bool(r.get("ok")) != must:
+                    ctx.pfails.append(("real:direct-not-first" if not must else "real:refused", "%s as recipient %d of %s: %s" % (
+                        w, len(added), [x[0] for x in seq], "accepted although the content key is already fixed" if not must else "refused"), "jwe.enc_jwk", C04.strip(a), r))
+                if r.get("ok"):
+                    pf = check_step("jwe", jwe, r["jwe"], a["rcp"], None)
+                    if pf:
+                        ctx.pfails.append((pf[0], pf[1], "jwe.enc_jwk", C04.strip(a), r))
+                    jwe, cek = r["jwe"], r["cek"]
+                    added.append((w, k))
+            r = C04.cmp(ctx, [("jwe.enc_cek", {"jwe": jwe, "cek": cek, "pt": b"direct first".hex(), "rand": rng.randbytes(64).hex(), "_expect_ok": True})], C04.p_enc)[0][0]
+            if r.get("ok"):
+                ents = jwe_entries(r["jwe"])
+                C04.cmp(ctx, [("jwe.dec", {"jwe": r["jwe"], "rcp": ents[j], "jwk": k, "rand": "00" * 600, "_pt": b"direct first".hex(),
+                                           "_why": "recipient %d (%s) of %s" % (j, w, [x[0] for x in added])}) for j, (w, k) in enumerate(added) if j < len(ents)], C04.p_dec)
+    ctx.count("real:direct-first-sequences", 2 * len(seqs))
 
 
 def run(ctx):
